@@ -134,7 +134,10 @@ def run(ctx):
                 ri = range_index(W, ("vfield", sev.call_term(nxt[0]), "Some", 0))
                 okn = ri is not None and ri["container"] == REQS
         ctx.check("send-loop", "iterates-requests", okn, "the loop iterates self.requests.iter().enumerate()", "the send loop is not an iteration over self.requests", sr.loc(sb))
-        exits = lp["exits"]
+        # edges into blocks that can only panic (failed assertions, expect on encode) are not ways to skip the remaining requests silently:
+        # they are panic obligations and belong to C08
+        divb = sr.diverging()
+        exits = [e for e in lp["exits"] if e[1] not in divb]
         oke = len(exits) == 1
         if oke:
             s0 = exits[0][0]
